@@ -338,7 +338,7 @@ func waitMsg(p *wsConn, n int) (wsMsg, error) {
 }
 
 // openWSP performs INIT, JOIN and the wrapped DESCRIBE / SETUP / PLAY.
-func openWSP(t evid.TB, s *srv.Server, pl *plan, path string, exp *expectation) *wspSess {
+func openWSP(t evid.TB, s *srv.Server, pl *plan, path string, exp *expectation, beforeLateJoin func()) *wspSess {
 	fail := func(x *wspSess, format string, a ...any) {
 		if x != nil {
 			if x.ctl != nil {
@@ -371,27 +371,36 @@ func openWSP(t evid.TB, s *srv.Server, pl *plan, path string, exp *expectation) 
 	// handshakeControlChannel), so a JOIN sent at once can be answered 404 and closed:
 	// not this property's business - join again on a fresh data connection
 	x.seq = 2
-	for try := 0; ; try++ {
-		if x.data, err = dialWS(s.WS(path), "data", pl.rcvBuf()); err != nil {
-			fail(x, "data dial: %v", err)
+	join := func() {
+		for try := 0; ; try++ {
+			if x.data, err = dialWS(s.WS(path), "data", pl.rcvBuf()); err != nil {
+				fail(x, "data dial: %v", err)
+			}
+			if err := x.data.sendText("WSP/1.1 JOIN\r\nchannel: " + r.Header["channel"] + "\r\nseq: 2\r\n\r\n"); err != nil {
+				fail(x, "JOIN: %v", err)
+			}
+			m, err = waitMsg(x.data, 1)
+			if err != nil {
+				fail(x, "JOIN response: %v", err)
+			}
+			jr, err := parseWSP(m.data)
+			if err == nil && jr.Status == 404 && try < 100 {
+				x.data.close()
+				time.Sleep(time.Millisecond)
+				continue
+			}
+			if err != nil || jr.Status != 200 {
+				fail(x, "JOIN response: %v %+v", err, jr)
+			}
+			break
 		}
-		if err := x.data.sendText("WSP/1.1 JOIN\r\nchannel: " + r.Header["channel"] + "\r\nseq: 2\r\n\r\n"); err != nil {
-			fail(x, "JOIN: %v", err)
-		}
-		m, err = waitMsg(x.data, 1)
-		if err != nil {
-			fail(x, "JOIN response: %v", err)
-		}
-		jr, err := parseWSP(m.data)
-		if err == nil && jr.Status == 404 && try < 100 {
-			x.data.close()
-			time.Sleep(time.Millisecond)
-			continue
-		}
-		if err != nil || jr.Status != 200 {
-			fail(x, "JOIN response: %v %+v", err, jr)
-		}
-		break
+	}
+	// The usual order is INIT, JOIN, then the RTSP dialogue. A client may also open
+	// its data channel late: PLAY first, media already flowing, JOIN afterwards. What
+	// was published before the JOIN may be dropped or delivered; whatever reaches the
+	// data channel must still be one frame per message (after seeded change C13-R6B).
+	if pl.LateJoin == 0 {
+		join()
 	}
 	do := func(method, url string, hdr string) *rtspc.Response {
 		x.mu.Lock()
@@ -438,6 +447,12 @@ func openWSP(t evid.TB, s *srv.Server, pl *plan, path string, exp *expectation) 
 	do("PLAY", x.url, "Range: npt=0.000-\r\n")
 	if !srv.WaitFor(ioBound, func() bool { return srv.Consumers(path) == 1 }) {
 		fail(x, "the session did not attach to %s", path)
+	}
+	if pl.LateJoin > 0 {
+		if beforeLateJoin != nil {
+			beforeLateJoin()
+		}
+		join()
 	}
 	return x
 }
@@ -514,7 +529,12 @@ func runWSP(t evid.TB, pl *plan) *result {
 	st := srv.PublishStream(path, sdpAV)
 	defer srv.Unpublish(st)
 	e := &env{pl: pl, st: st, exp: newExpectation(), soft: true}
-	x := openWSP(t, s, pl, path, e.exp)
+	x := openWSP(t, s, pl, path, e.exp, func() {
+		for i := 0; i < pl.LateJoin; i++ {
+			e.publishLoose(pktSpec{Ch: []int{0, 0, 2, 1}[i%4], Size: 24 + 37*(i%30), Fill: "ramp"})
+		}
+		time.Sleep(2 * time.Millisecond) // stimulus only: lets the delivery goroutine meet the session without a data channel
+	})
 	defer x.ctl.close()
 	defer x.data.close()
 	x.sentinel = e.sentinelBytes
